@@ -107,24 +107,38 @@ let cmd_flat args =
   | _ -> failwith "c09flat"
 
 (* ---- c09parse <flat|nested> <table> <text>
-   table entries: dstring  or  dstring^k (a tuple whose first element has the repr of entry k);
-   literal_eval s = the first entry whose text is s.  Output: sections '/', items ';',
-   a value = its entry number, template = [a,b|c,d] *)
+   table entries: dstring      the text of object number k (k = position of the entry)
+                  dstring^k    a tuple whose first element is object k
+                  dstring=k    another text of object k
+                  dstring!     literal_eval raises on this text
+   literal_eval s = the first entry whose text is s.  A text that is not in the table is reported
+   ("need t1,t2,..."): the harness evaluates the real literal_eval on it and asks again.
+   Output: sections '/', items ';', a value = its object number, template = [a,b|c,d] *)
 let cmd_parse args =
   match args with
   | [kind; table; text] ->
-    let tbl : (string, pyv) Hashtbl.t = Hashtbl.create 256 in
+    let tbl : (string, pyv Base.result) Hashtbl.t = Hashtbl.create 256 in
     if table <> "_" then
       SL.iteri (fun k e ->
-          let (s, v) = match String.split_on_char '^' e with
-            | [s] -> (s, PyV (Descr.VInt (z_of_int k)))
-            | [s; t] -> (s, PyTup (Descr.VInt (z_of_string t), []))
-            | _ -> failwith "table entry" in
+          let n = String.length e in
+          let (s, v) =
+            if n > 0 && e.[n - 1] = '!' then (String.sub e 0 (n - 1), Base.Err Base.EValue) else
+            match String.split_on_char '^' e with
+            | [s; t] -> (s, Base.Ok (PyTup (Descr.VInt (z_of_string t), [])))
+            | _ ->
+              (match String.split_on_char '=' e with
+               | [s; t] -> (s, Base.Ok (PyV (Descr.VInt (z_of_string t))))
+               | _ -> (e, Base.Ok (PyV (Descr.VInt (z_of_int k))))) in
           if not (Hashtbl.mem tbl s) then Hashtbl.add tbl s v) (String.split_on_char ',' table);
+    let missing = ref [] in
     let leval (s : str) : pyv Base.result =
-      match Hashtbl.find_opt tbl (show_dstr s) with Some v -> Base.Ok v | None -> Base.Err Base.EValue in
+      let key = show_dstr s in
+      match Hashtbl.find_opt tbl key with
+      | Some v -> v
+      | None -> (if not (SL.mem key !missing) then missing := key :: !missing); Base.Err Base.EValue in
     let r = (if kind = "flat" then flat_text_to_flat_json leval (dstr text)
              else nested_text_to_flat_json leval (dstr text)) in
+    if !missing <> [] then "need " ^ String.concat "," (SL.rev !missing) else
     (match r with
      | Base.Err e -> err_string e
      | Base.Ok secs ->
